@@ -270,9 +270,10 @@ def units(tier):
         for place in ("none", "mirror") + (("rot1", "mirror-rot") if T else ()):
             if shape == "annulus" and place != "none" and not T:
                 continue  # two symbolic radii under a mirrored placement: > 8 min, thorough tier only
-            rng = (3, 12) if T else ((3, 6) if place == "none" and shape != "annulus" else (3, 4))
+            # sized after the first end-to-end thorough run (rotated placements with 10 counts ran into the 1500 s hard timeout)
+            rng = ((3, 12) if place == "none" else (3, 5)) if T else ((3, 6) if place == "none" and shape != "annulus" else (3, 4))
             us.append(Unit("%s-%s" % (shape, place), u_revolved, params={"shape": shape, "place": place, "sections": rng}, key="%s/%s" % (shape, place), functions=FUN,
-                           bounds="creation.%s, radius/height symbolic, EVERY section count %d..%d, placement '%s'" % (shape, rng[0], rng[1], place), max_paths=60, wall_s=500 if not T else 2000))
+                           bounds="creation.%s, radius/height symbolic, EVERY section count %d..%d, placement '%s'" % (shape, rng[0], rng[1], place), max_paths=60 if not T else 200, wall_s=500 if not T else 1300))
     for shape in ("uv_sphere", "capsule", "torus"):
         us.append(Unit("%s-grids" % shape, u_grids, params={"shape": shape}, key="%s/grids" % shape, functions=FUN, opts={"no_proxy": True},
                        bounds="creation.%s: EVERY combination of catalogue radii, grid counts and 4 placements (incl. mirrored), chosen by the solver; values concrete (the exact-arithmetic run of these generators does not finish), body on plain numpy" % shape, max_paths=500, wall_s=500))
